@@ -237,9 +237,16 @@ def rule_unfiltered(ctx, rid, A):
 
 
 def _is_affine_N(A, p):
+    from .cyclevec import _norm_len
     for t in subterms(p):
         if t[0] == 'sub' and t[1][0] == 'attr' and t[1][2] == 'shape':
-            return A.aff(p, t) is not None
+            n = _norm_len(t) or t
+            if A.aff(p, n) is not None or A.aff(p, t) is not None:
+                return True
+        if t[0] == 'call' and t[1] == 'builtins.len':
+            n = _norm_len(t)
+            if n is not None and A.aff(p, _norm_len(n) or n) is not None:
+                return True
     return A.aff(p, ('s', '?')) is not None
 
 
